@@ -677,7 +677,31 @@ impl SendObs {
     }
 }
 
+/// A different request on this thread whose connection breaks while the request is being written: whatever that
+/// failure leaves behind on the thread (buffers, caches) is no part of the next request (seed C08-seed10: a
+/// per-thread write buffer that is not cleared on the error path).
+fn break_a_request_on_this_thread() {
+    verif_hooks::set_dial_factory(Box::new(|_info| {
+        crate::script::set_write_fail_after(Some(37));
+        let (script, _log) = Script::new(vec![]);
+        Some(Ok(Box::new(script) as Box<dyn verif_hooks::Transport>))
+    }));
+    let _ = catch_unwind(AssertUnwindSafe(|| {
+        attohttpc::post("http://leftover.test/left/over?token=L3ft0ver")
+            .header("X-Leftover", "L3ft0verHeader")
+            .follow_redirects(false)
+            .text("L3ft0verBody ".repeat(1500))
+            .send()
+            .map(|_| ())
+    }));
+    verif_hooks::clear_dial_factory();
+    crate::script::set_write_fail_after(None);
+}
+
 pub fn run_send(case: &SendCase) -> SendObs {
+    if (case.url.len() + case.method.len() * 3 + case.pre.len() + case.hops.len()) % 4 == 0 {
+        break_a_request_on_this_thread();
+    }
     let mut obs = SendObs { hops: vec![], fin: FinalObs::Panic, url: None, prepared_headers: vec![], prepare_error: None, plain: case.plain_tunnel, resend_differs: None };
     let method = attohttpc::Method::from_bytes(case.method.as_bytes()).unwrap_or(attohttpc::Method::GET);
     let rb = match attohttpc::RequestBuilder::try_new(method.clone(), &case.url) {
